@@ -6,7 +6,7 @@
    and logs only what it observed from outside:
 
      RequestCache   Start{c,k,res}  Acquire{c,k,infl}  Busy{c,k}  Exit{k,e,infl}  Released{k}
-     Limiter        Run{c,k}  Enter{c,k,infl}  Leave{c,k,o,ttl,infl}  Ret{c,out}
+     Limiter        Run{c,k}  Enter{c,k,infl}  Leave{c,k,o,ttl,infl}  Ret{c,out}  Waiting{c,k}
      IntervalTrap   Trap{c}  TaskEnter{c,infl}  TaskLeave{c}  TrapRet{c}
      all            Tick{d}  reset{cfg}  abort
 
@@ -53,6 +53,8 @@ SRc == \E k \in Keys : (\E e \in {"nil", "nf", "other"} : Silent(RcFinish(k, e))
 TRun   == IsEvent("Run") /\ LmCall(R.c, R.k)
 TEnter == IsEvent("Enter") /\ lmPc[R.c].k = R.k /\ LmDecideRun(R.c) /\ R.infl = lmInRun'[R.k]
 TLeave == IsEvent("Leave") /\ lmPc[R.c].k = R.k /\ R.infl = lmInRun[R.k] /\ LmRunnerRet(R.c, R.o, R.ttl)
+\* the goroutine was seen parked in cond.Wait
+TWaiting == IsEvent("Waiting") /\ lmPc[R.c].pc = "wait" /\ lmPc[R.c].k = R.k /\ UNCHANGED vars
 TRet   == IsEvent("Ret") /\ lmPc[R.c].pc = "done" /\ R.out = LmRetRes(R.c) /\ LmReturn(R.c)
 SLm == \E c \in LmCallers : \/ Silent(LmTrap(c)) \/ Silent(LmLookFast(c)) \/ Silent(LmLookSlow(c))
                             \/ Silent(LmGetLock(c)) \/ Silent(LmDecideWait(c)) \/ Silent(LmDecideFresh(c))
@@ -67,7 +69,7 @@ STr == \E c \in TrCallers : Silent(TrCheck(c)) \/ Silent(TrLockSkip(c)) \/ Silen
 
 TraceNext == \/ TReset \/ TAbort \/ TTick
              \/ TStart \/ TAcquire \/ TBusy \/ TExit \/ TReleased \/ SRc
-             \/ TRun \/ TEnter \/ TLeave \/ TRet \/ SLm
+             \/ TRun \/ TEnter \/ TLeave \/ TRet \/ TWaiting \/ SLm
              \/ TTrap \/ TTaskEnter \/ TTaskLeave \/ TTrapRet \/ STr
 TraceSpec == TraceInit /\ [][TraceNext]_tvars
 
